@@ -302,6 +302,15 @@ pub fn emit_reports(rng: &mut Rng, ai: u8, g: &AcGen, max_reports: usize) -> Vec
                 tc: 0,
                 fault: 0,
             });
+            // a position-source outage: the transponder keeps squittering type
+            // code 0 (altitude only, no position) for a while
+            if rng.chance(0.02) {
+                for q in 0..rng.usize(1, 4) {
+                    if v.len() < max_reports {
+                        v.push(Report { ac: ai, t_enc: t + 0.1 + 0.5 * q as f64, ts: t + 0.1 + 0.5 * q as f64, odd: false, tc: 255, fault: 0 });
+                    }
+                }
+            }
             if !single_parity {
                 // transponders alternate; sometimes the same parity comes twice
                 if rng.chance(0.9) {
@@ -614,6 +623,20 @@ fn build(plan: &C06Plan, skipped: &mut u64) -> Result<Vec<Built>, String> {
         // report is the same frame byte for byte
         let sel = (r.t_enc * 1000.0) as u64;
         let _ = i;
+        if r.tc == 255 {
+            // type code 0: barometric altitude, no position
+            let me: u64 = (world::ac12_25ft(truth.alt as i32) as u64) << 36;
+            let frame = world::df17(ac.icao, 5, me);
+            match Message::try_from(frame.as_slice()) {
+                Ok(message) => v.push(Built {
+                    idx: i,
+                    msg: TimedMessage { timestamp: exec::EPOCH_S as f64 + r.ts, frame, message: Some(message), metadata: vec![], decode_time: None },
+                    truth,
+                }),
+                Err(e) => return Err(format!("type-code-0 frame {} built by the driver was rejected by the decoder: {:?}", world::hex(&frame), e)),
+            }
+            continue;
+        }
         let (frame, enc) = if truth.surface {
             let tc = if (5..=8).contains(&r.tc) { r.tc } else { 5 + (sel % 4) as u8 };
             world::df17_surface_position(ac.icao, tc, truth.gs, truth.heading, truth.lat, truth.lon, r.odd)
